@@ -99,6 +99,37 @@ theorem EFinder.call_spec (key : α → κ) (f : EFinder α κ) (items : List α
       exact ⟨zipMatches_spec key f.list (x :: xs) i this.1 this.2, List.prefix_refl _⟩
     · exact ⟨by simp, List.prefix_append _ _⟩
 
+theorem getElem?_of_prefix {l l' : List α} (h : l <+: l') {i : Nat} {y : α} (hy : l[i]? = some y) : l'[i]? = some y := by
+  obtain ⟨t, rfl⟩ := h
+  have hlt : i < l.length := by
+    rcases Nat.lt_or_ge i l.length with h | h
+    · exact h
+    · rw [List.getElem?_eq_none h] at hy; cases hy
+  rw [List.getElem?_append_left hlt]; exact hy
+
+/-- every index handed out by `callAll` addresses, in the *final* list, an element with the key of
+the corresponding argument; the initial list is a prefix of the final one -/
+theorem Finder.callAll_spec (key : α → κ) : ∀ (xs : List α) (f : Finder α κ), f.Inv key →
+    (Finder.callAll key f xs).1.length = xs.length ∧ f.list <+: (Finder.callAll key f xs).2.list ∧
+    ∀ k (hk : k < xs.length), ∃ i y, (Finder.callAll key f xs).1[k]? = some i ∧
+      (Finder.callAll key f xs).2.list[i]? = some y ∧ key y = key xs[k] := by
+  intro xs
+  induction xs with
+  | nil => intro f _; exact ⟨rfl, List.prefix_refl _, fun k hk => absurd hk (Nat.not_lt_zero _)⟩
+  | cons x xs ih =>
+    intro f hf
+    have hs := Finder.call_spec key f hf x
+    obtain ⟨hl, hpre, hall⟩ := ih (f.call key x).2 hs.2.2
+    refine ⟨by simp [Finder.callAll, hl], List.IsPrefix.trans hs.2.1 hpre, ?_⟩
+    intro k hk
+    cases k with
+    | zero =>
+      obtain ⟨y, hy, hky⟩ := hs.1
+      exact ⟨(f.call key x).1, y, by simp [Finder.callAll], getElem?_of_prefix hpre hy, hky⟩
+    | succ k =>
+      obtain ⟨i, y, h1, h2, h3⟩ := hall k (by simpa using hk)
+      exact ⟨i, y, by simpa [Finder.callAll] using h1, h2, by simpa using h3⟩
+
 end finders
 
 /-! ## run-length coding -/
